@@ -358,3 +358,8 @@ def run_case(rng, ctx):
             ctx.count("hostile_" + label + "_returned")
         except Exception as err:
             ctx.count("hostile_{}_raised_{}".format(label, type(err).__name__))
+    # -- tensors are values: no operation may have changed its operands -----------------
+    for name, value, matrix, x, y in (("f", f, mf, a, b), ("g", g, mg, b, c),
+                                     ("h", h, mh, d, e), ("k", k, mk, e, f_)):
+        case.judge("operands-unchanged", value, matrix, x, y,
+                   law=name + " after all the operations above", **shapes)
